@@ -91,6 +91,15 @@ def gen_case(r, i, tier):
     fit = r.normal(0, 1, (12, d))
     for j in range(d):
         fit[:, j] = c["lo"][j] + (0.5 + 0.2 * np.tanh(fit[:, j])) * (c["hi"][j] - c["lo"][j])
+    if cls == "affine" and (i // 8) % 2 == 1:
+        # a column that is numerically (not exactly) constant: its spread is far below the machine epsilon of the width, around zero,
+        # where such spreads are representable (a parameter that barely moves, an offset that was subtracted upstream)
+        tiny = 1e-9 if width == "f32" else 1e-19
+        fit[:, 0] = tiny * r.normal(0, 1, len(fit))
+        xs_ = np.asarray(c["x"])
+        xs_[:, 0] = tiny * r.normal(0, 3, len(xs_))
+        c["x"] = (xs_.astype(np.float32).astype(np.float64) if width == "f32" else xs_).tolist()
+        c["tiny_spread_column"] = True
     if width == "f32":
         fit = fit.astype(np.float32).astype(np.float64)
     c["fit"] = fit.tolist()
